@@ -67,4 +67,34 @@ func init() {
 		NotDecided:  "agreement of verdicts and descriptors between the two compilers (differential, value-level)",
 		Rules:       []func(*World){rsLower},
 	})
+	register(&Property{
+		ID:          "C04",
+		Explanation: "RO: scope is computed — every struct in package linker embedding a protoreflect interface whose embedded value is a noOp* placeholder or never assigned (reviewed real delegates are listed). For each, every exported method of the embedded interface (except the sealed ProtoInternal/ProtoType) must be declared on the type itself (method-set selection depth 1), so no attribute query is silently answered by the placeholder.",
+		NotDecided:  "that each override computes the right value (feature resolution, presence, packing, text names, range membership) — value-level",
+		Rules:       []func(*World){roDescriptors},
+	})
+	register(&Property{
+		ID:          "C09",
+		Explanation: "RM: in the compile path (asParseResult, asFile, doCompile, asAST) the resolver-supplied SearchResult.ParseResult / Proto are used only for nil tests, read-only name checks, and as the argument of parser.Clone / proto.Clone. RL: parser.Clone's copy sets every field of parser.result, each bound to a fresh value (proto.Clone, make) or listed as deliberately shared immutable state; the original's descriptor proto leaves Clone only through proto.Clone; the key kinds written by the put*Node index writers equal those re-created by the clone.",
+		NotDecided:  "equality of descriptors across input forms (value-level); that nothing writes through a supplied Desc/AST (read-only by contract, not cloned)",
+		Rules:       []func(*World){rmCompiler, rlClone},
+	})
+	register(&Property{
+		ID:          "C24",
+		Explanation: "RL (both halves): parser.Clone's copy sets every field of parser.result with fresh or listed-immutable values, the original proto escapes only through proto.Clone, and the set of node-index key kinds written by parser/result.go equals the set re-created by parser/clone.go.",
+		NotDecided:  "deep equality of the cloned proto (delegated to proto.Clone)",
+		Rules:       []func(*World){rlClone},
+	})
+	register(&Property{
+		ID:          "C18",
+		Explanation: "RK: all Find* methods of linker.fileResolver reduce to resolveInFile(r.f, false, nil, fn) with fn consulting only its file parameter (or delegate to such a sibling); inside resolveInFile the recursion passes publicImportsOnly = true and the same query, the recursive search is dominated by the guard 'first level or imp.IsPublic', imports are skipped only under recognised conditions, and a path is added to the visited list only immediately before that file is searched (no branch between marking and searching). RH9: no second code path follows imports.",
+		NotDecided:  "correctness of each per-file query (findExtension, FindDescriptorByName)",
+		Rules:       []func(*World){rkResolvers, rh9UsedImports},
+	})
+	register(&Property{
+		ID:          "C19",
+		Explanation: "RK: a successful lookup through a non-public import of a linker result marks that import used before returning. RH9: usedImports is written only by markUsed, which is called only from the shared visibility walk. RC9: CheckForUnusedImports runs only after Link, InterpretOptions and ValidateOptions, and only on the explicitFile branch. RC10: all requested files are registered with explicitFile = true inside one executor.mu critical section. RB2: no binary search over input-ordered slices (public_dependency etc.) in the linker.",
+		NotDecided:  "the converse (a marked import may still be removable)",
+		Rules:       []func(*World){rkResolvers, rh9UsedImports, rcLink, rc10ExplicitRegistration, rb2SortedAssumptions},
+	})
 }
